@@ -10,6 +10,9 @@
 //!   collector <none|scoped|global> <hint -1|0..5> <default 0..5> [<target>=<0..5> ...]
 //!   dangling <hint -1|0..5>                     a second, accept-all Dispatch that is created but never installed
 //!   rec <D|M|F> <level 1..5> <target> <msg> <file|-> <line|-> <module|->
+//!   lit <D|M|F> <level 1..5> <target> <idx> <file|-> <line|-> <module|->      like `rec`, but the message is the idx-th
+//!                                               string LITERAL of `with_lit` (no interpolated arguments:
+//!                                               `record.args().as_str()` is Some)
 //!   foreign <level 1..5> <target str>           an event on the harness' own callsite that looks like a log event
 //!   enq <level 1..5> <target>                   log::logger().enabled(&metadata)        (what log_enabled! asks)
 //!   cvm <level 1..5> <target>                   log::Metadata::as_trace()
@@ -19,6 +22,9 @@
 //! F = `tracing_log::format_trace(&record)`.
 //!
 //! Output: one JSON object per line; see `driver/props/c18.py`.  Levels: 0 = OFF, 1 = ERROR .. 5 = TRACE.
+//! Every event is recorded through TWO visitors: a typed one (record_str / record_u64 / ... overridden: `fields`) and a
+//! minimal one that implements only the required `record_debug` (`dbg`: the `{:?}` text of every value, which for the
+//! `message` field must be the record's message itself).
 use std::fmt::Write as _;
 use std::sync::{Arc, Mutex};
 use tracing_core::{
@@ -192,6 +198,41 @@ impl Visit for FieldDump {
         let _ = write!(self.0, "[{},4,{},0],", jstr(f.name()), jstr(&v.to_string()));
     }
 }
+/// a visitor with nothing but the one required method
+struct DebugOnly(String);
+impl Visit for DebugOnly {
+    fn record_debug(&mut self, f: &Field, v: &dyn std::fmt::Debug) {
+        let _ = write!(self.0, "[{},{}],", jstr(f.name()), jstr(&format!("{:?}", v)));
+    }
+}
+/// string literals without arguments (keep in step with LITS in driver/props/c18.py)
+fn with_lit(idx: usize, f: &mut dyn FnMut(std::fmt::Arguments<'_>)) {
+    match idx {
+        0 => f(format_args!("plain literal message")),
+        1 => f(format_args!("with \"quotes\" inside")),
+        2 => f(format_args!("back\\slash and \ttab")),
+        3 => f(format_args!("line1\nline2")),
+        4 => f(format_args!("{{braces}} and %s")),
+        5 => f(format_args!("")),
+        6 => f(format_args!("ünï✓ 🦀")),
+        7 => f(format_args!("log.target=evil 'single'")),
+        _ => panic!("no such literal"),
+    }
+}
+#[rustfmt::skip]
+fn emit_macro_lit(idx: usize, target: &str, lvl: log::Level) -> u32 {
+    match idx {
+        0 => { let l = line!(); log::log!(target: target, lvl, "plain literal message"); l }
+        1 => { let l = line!(); log::log!(target: target, lvl, "with \"quotes\" inside"); l }
+        2 => { let l = line!(); log::log!(target: target, lvl, "back\\slash and \ttab"); l }
+        3 => { let l = line!(); log::log!(target: target, lvl, "line1\nline2"); l }
+        4 => { let l = line!(); log::log!(target: target, lvl, "{{braces}} and %s"); l }
+        5 => { let l = line!(); log::log!(target: target, lvl, ""); l }
+        6 => { let l = line!(); log::log!(target: target, lvl, "ünï✓ 🦀"); l }
+        7 => { let l = line!(); log::log!(target: target, lvl, "log.target=evil 'single'"); l }
+        _ => panic!("no such literal"),
+    }
+}
 fn meta_json(m: &Metadata<'_>) -> String {
     format!(
         "\"name\":{},\"target\":{},\"level\":{},\"file\":{},\"line\":{},\"module\":{},\"cs\":{}",
@@ -226,6 +267,9 @@ impl Collect for Rec {
         let mut fd = FieldDump(String::new());
         ev.record(&mut fd);
         let fields = fd.0.trim_end_matches(',').to_string();
+        let mut dv = DebugOnly(String::new());
+        ev.record(&mut dv);
+        let dbg = dv.0.trim_end_matches(',').to_string();
         let norm = match ev.normalized_metadata() {
             None => "null".to_string(),
             Some(n) => {
@@ -239,9 +283,10 @@ impl Collect for Rec {
             }
         };
         self.out.lock().unwrap().push(format!(
-            "{{\"t\":\"ev\",{},\"fields\":[{}],\"is_log\":{},\"norm\":{}}}",
+            "{{\"t\":\"ev\",{},\"fields\":[{}],\"dbg\":[{}],\"is_log\":{},\"norm\":{}}}",
             meta_json(ev.metadata()),
             fields,
+            dbg,
             ev.is_log(),
             norm
         ));
@@ -288,7 +333,7 @@ fn main() {
                 coll = Some((t[1].clone(), t[2].parse().unwrap(), t[3].parse().unwrap(), rules));
             }
             "dangling" => dangling = Some(t[1].parse().unwrap()),
-            "rec" | "foreign" | "enq" | "cvm" | "cvr" | "cvl" => items.push(t),
+            "rec" | "lit" | "foreign" | "enq" | "cvm" | "cvr" | "cvl" => items.push(t),
             other => panic!("unknown line kind {}", other),
         }
     }
@@ -354,7 +399,41 @@ fn main() {
     for (i, t) in items.iter().enumerate() {
         let mut extra = String::new();
         let r = std::panic::catch_unwind(std::panic::AssertUnwindSafe(|| {
-            if t[0] == "rec" {
+            if t[0] == "lit" {
+                let lvl = log_level_of(t[2].parse().unwrap());
+                let target = unhex(&t[3]);
+                let idx: usize = t[4].parse().unwrap();
+                let file = unhex_opt(&t[5]);
+                let line: Option<u32> = if t[6] == "-" { None } else { Some(t[6].parse().unwrap()) };
+                let module = unhex_opt(&t[7]);
+                let mut text = String::new();
+                let mut is_lit = false;
+                with_lit(idx, &mut |a| {
+                    text = format!("{}", a);
+                    is_lit = a.as_str().is_some();
+                });
+                extra = format!(",\"lit_text\":{},\"as_str\":{}", jstr(&text), is_lit);
+                if t[1] == "M" {
+                    let l = emit_macro_lit(idx, &target, lvl);
+                    extra = format!("{},\"macro_line\":{}", extra, l);
+                } else {
+                    with_lit(idx, &mut |args| {
+                        let rec = log::Record::builder()
+                            .level(lvl)
+                            .target(&target)
+                            .args(args)
+                            .file(file.as_deref())
+                            .line(line)
+                            .module_path(module.as_deref())
+                            .build();
+                        if t[1] == "D" {
+                            log::logger().log(&rec);
+                        } else {
+                            tracing_log::format_trace(&rec).unwrap();
+                        }
+                    });
+                }
+            } else if t[0] == "rec" {
                 let lvl = log_level_of(t[2].parse().unwrap());
                 let target = unhex(&t[3]);
                 let msg = unhex(&t[4]);
